@@ -61,7 +61,8 @@ MODULE_SRC = {
     "alpha/mb.py": '"""Module mb."""\nfrom alpha.ma import A\nclass B(A):\n    "B."\nclass B2(A):\n    "B2."\nCONST = {"k": 1, "j": 2}\n',
     "alpha/.hidden": "not python\n",
     # no docstring: its summary counts the documented members per kind - a sub-package AND a module
-    "beta/__init__.py": 'from alpha.ma import A\ndef bfun():\n    "b function"\n',
+    # one import statement naming two modules of the package (the reverse of the order they wait in the queue)
+    "beta/__init__.py": 'from alpha.ma import A\nimport beta.sc, beta.me\ndef bfun():\n    "b function"\n',
     "beta/sc/__init__.py": '"""Sub package."""\ndef scfun():\n    "sc function"\n',
     "beta/sc/md.py": '"""Module md."""\nfrom alpha.ma import A\nclass D(A):\n    "D."\n    x = 1\n    "x doc"\n',
     "beta/me.py": ('"""Module me."""\n__docformat__ = "restructuredtext"\nimport alpha.ma\nclass E(alpha.ma.A):\n    "E extends `alpha.ma.A`."\n'
@@ -99,6 +100,9 @@ SITES = [
     # build (restructuredtext._SplitFieldsTranslator._newfields belongs to one docstring)
     ("newfield:alpha.Ma.cfield", "alpha.Ma", BOTH("list"), [("alpha.Ma", "1:Parameters")]),
     ("newfield:beta.me.f", "beta.me", BOTH("list"), [("beta.me", "1:Parameters")]),
+    # `import beta.sc, beta.me` in beta/__init__.py: the modules are analysed in the order the statement names them
+    # (astbuilder.visit_Import: getProcessedModule per alias), which is the order their members enter allobjects
+    ("importorder:beta", "beta", BOTH("list"), [("beta.sc", "1:beta.sc.scfun"), ("beta.me", "2:beta.me.E")]),
     ("undocumented-kinds:beta", "beta", BOTH("sorted"), [("beta.sc", "2:package"), ("beta.me", "1:module"), ("beta", "0:function")]),
     # sections of an epytext docstring whose titles have no Latin letter or digit, in document order (table of contents)
     ("sections:gamma", "gamma", BOTH("list"),
@@ -218,7 +222,7 @@ class Tree:
         out = []
         for f in ids:
             f = list(f)
-            out.append(f if f[0] == 0 else [f[0], self.name_of[tuple(f[1:])]])
+            out.append(f if f[0] in (0, 3) else [f[0], self.name_of[tuple(f[1:])]])
         return sorted(out, key=str)
 
 
@@ -372,6 +376,14 @@ SAMEPROC = ("import sys, json, os\nfrom pydoctor.driver import main\nfirst, args
             "if blocked:\n    os.makedirs(blocked)          # a directory sits where a page goes: the first build aborts there\n"
             "try:\n    main(first)\nexcept BaseException as e:\n    print('FIRST-BUILD-ENDED-WITH', type(e).__name__)\n"
             "sys.exit(main(args))\n")
+ABORTRUN = ("import sys, json\nfrom pydoctor.driver import main\nfrom pydoctor.templatewriter import writer\n"
+            "args, page = json.loads(sys.argv[1])\n_flatten = writer.flattenToFile\n"
+            "def flattenToFile(fobj, elem):\n"
+            "    if page in str(getattr(fobj, 'name', '')):\n"
+            "        fobj.write(b'<html><body><p>half a page')\n        fobj.flush()\n"
+            "        raise RuntimeError('the run is interrupted while a page is rendered')\n"
+            "    return _flatten(fobj, elem)\n"
+            "writer.flattenToFile = flattenToFile\nsys.exit(main(args))\n")
 # a page written late by the build of each root: blocking it aborts the build part-way through its pages
 ABORT_PAGE = {"alpha": "alpha.Ma.ZChild.html", "beta": "beta.sc.html", "gamma.py": "gamma.G.html"}
 _TABLE_ID = re.compile(rb"\bid\d+\b")
@@ -398,10 +410,16 @@ class Runner:
         self.tpl2.mkdir(exist_ok=True)
         (self.tpl / "header.html").write_text('<div data-hdr="first">header of the first template directory</div>\n')
         (self.tpl2 / "header.html").write_text('<div data-hdr="second">header of the second template directory</div>\n')
+        # ... the project's extra.css, and a copy of the first directory whose extra.css has other bytes of the same length
+        (self.tpl / "extra.css").write_text("/* tpl-css */ a { color: #1a5fb4; }\n")
+        self.tplB = scratch / "tplB"
+        shutil.copytree(self.tpl, self.tplB, dirs_exist_ok=True)
+        (self.tplB / "extra.css").write_text("/* tpl-css */ a { color: #26a269; }\n")
 
     def run(self, src: Path, root_args: List[str], named: bool, seed: int, orders: Dict[str, List[str]], salt: int,
             out: Path, extra_args: Sequence[str] = (), var: Optional[Dict[str, Any]] = None,
-            sameproc: bool = False, other_root: Optional[str] = None, abort_first: bool = False) -> Dict[str, Any]:
+            sameproc: bool = False, other_root: Optional[str] = None, abort_first: bool = False,
+            css_alt: bool = False, abort_at: Optional[str] = None) -> Dict[str, Any]:
         self.n += 1
         tag = out.name
         cfg = self.scratch / f"listing_{tag}.json"
@@ -414,7 +432,7 @@ class Runner:
         if var.get("expand"):
             extra_args = list(extra_args) + ["--sidebar-expand-depth=2"]
         if var.get("tpl"):
-            extra_args = list(extra_args) + ["--template-dir", str(self.tpl), "--template-dir", str(self.tpl2)]
+            extra_args = list(extra_args) + ["--template-dir", str(self.tplB if css_alt else self.tpl), "--template-dir", str(self.tpl2)]
         env.pop("SOURCE_DATE_EPOCH", None)
         if var["epochset"]:
             env["SOURCE_DATE_EPOCH"] = str(var["epoch"])
@@ -441,6 +459,9 @@ class Runner:
             return ["--config", str(ini)]
         args = ["--html-output", str(out)] + opts + sources(root_args, "main")
         cmd = [PY, "-m", "pydoctor"] + args
+        if abort_at:
+            # this run aborts while the page `abort_at` is being rendered
+            cmd = [PY, "-c", ABORTRUN, json.dumps([args, abort_at])]
         if sameproc:
             # the run under observation is the SECOND pydoctor run of its process (what pydoctor.sphinx_ext does with two
             # configured projects): the first one builds ANOTHER project into a directory that is thrown away
@@ -472,6 +493,8 @@ def project_files(tree: Tree, out: Path) -> List[List[int]]:
             ids.append([2] + list(tree.path_of_name[nm[:-5]]))
         elif nm in FIXED_PAGES:
             ids.append(FIXED_PAGES[nm])
+        elif nm == "extra.css" and b"tpl-css" in p.read_bytes():
+            ids.append([3, 0])                    # the extra.css of the --template-dir
         elif nm.endswith(".html") and nm[:-5] in tree.path_of_name:
             ids.append([1] + list(tree.path_of_name[nm[:-5]]))
     return ids
@@ -527,6 +550,11 @@ def observed_sites(out: Path) -> Dict[str, Any]:
             sid += [int(x) for x in re.findall(r'expandableItemId(\d+)', f.read_text())]
     if sid:
         obs["first_sidebar_id"], obs["sidebarbase"] = min(sid), 1 if min(sid) > 1 else 0
+    f = out / "all-documents.html"
+    if f.exists():
+        got = [i for i in re.findall(r'<li id="([^"]+)"', f.read_text()) if i in ("beta.sc.scfun", "beta.me.E")]
+        if got:
+            obs["importorder:beta"] = got
     f = out / "all-documents.html"
     if f.exists():
         ids = re.findall(r'<li id="([^"]+)"', f.read_text())
@@ -713,6 +741,16 @@ def realise_enumeration(ctx: Ctx, runner: Runner, tree: Tree, uname: str, recs: 
         out = outbase / f"run_{idx}"
         if rec["outdir"] == "reused":
             shutil.copytree(ref["out"], out, symlinks=True)
+        elif rec["outdir"] in ("reusedaborted", "reusedcss"):
+            # the directory first goes through a run of the same input that aborts among its pages / that only differs
+            # in the bytes of the template directory's extra.css
+            page = ABORT_PAGE.get(env["root_args"][0]) if rec["outdir"] == "reusedaborted" else None
+            first = runner.run(tree.src, env["root_args"], rec["named"], env["seed"], env["orders"], env["salt"], out, var=rec["var"],
+                               css_alt=rec["outdir"] == "reusedcss", abort_at=page)
+            if rec["outdir"] == "reusedaborted" and (first["rc"] in (0, 2) or "interrupted while a page" not in first["tail"]):
+                raise MachineryError(f"the run that was to abort at {page} did not: rc={first['rc']} {first['tail'][-200:]}")
+            if rec["outdir"] == "reusedcss" and first["rc"] not in (0, 2):
+                raise MachineryError(f"first run into the directory failed: {first['tail'][-200:]}")
         o = runner.run(tree.src, env["root_args"], rec["named"], env["seed"], env["orders"], env["salt"], out, var=rec["var"],
                        sameproc=rec["outdir"] in ("sameproc", "afterabort"), other_root=other_root(rec),
                        abort_first=rec["outdir"] == "afterabort")
